@@ -122,6 +122,15 @@ func fatalf(format string, a ...any) {
 	os.Exit(2)
 }
 
+// repoRoot is /repo; VCHECK_REPO points isolated runs (seed detection in a scratch worktree)
+// at another checkout.
+var repoRoot = func() string {
+	if r := os.Getenv("VCHECK_REPO"); r != "" {
+		return r
+	}
+	return "/repo"
+}()
+
 // Report collects the outcome of one check run and writes evidence.
 type Report struct {
 	Prop   string
